@@ -300,13 +300,14 @@ class LocationToFailAllocNode
 
     bool shouldFail(int allocationNumber, const char* file, size_t line)
     {
-      if (file_ && SimpleString::StrCmp(file, file_) == 0 && line == line_) {
-        actualAllocNumber_++;
-        return actualAllocNumber_ == allocNumberToFail_;
+      if (file_) {
+        if (SimpleString::StrCmp(file, file_) == 0 && line == line_) {
+          actualAllocNumber_++;
+          return actualAllocNumber_ == allocNumberToFail_;
+        }
+        return false;
       }
-      if (allocationNumber == allocNumberToFail_)
-        return true;
-      return false;
+      return allocationNumber == allocNumberToFail_;
     }
 
   private:
